@@ -84,8 +84,18 @@ def build(ctx=None):
 def coqc(path, extra_q=(), timeout=600, cwd=None):
     """compile one file; returns (rc, stdout+stderr)"""
     cmd = ["timeout", str(timeout), "coqc"] + COQ_Q + list(extra_q) + [path]
-    p = subprocess.run(cmd, capture_output=True, text=True, cwd=cwd)
+    p = subprocess.run(cmd, capture_output=True, text=True, cwd=cwd, preexec_fn=_big_stack)
     return p.returncode, p.stdout + p.stderr
+
+
+def _big_stack():
+    """coqc overflows the default 8 MB stack on list literals of some 50 000 elements (kernel_sample case files)"""
+    import resource
+    try:
+        hard = resource.getrlimit(resource.RLIMIT_STACK)[1]
+        resource.setrlimit(resource.RLIMIT_STACK, (hard, hard))
+    except (ValueError, OSError):
+        pass
 
 
 _THM_RE = re.compile(r"^\s*(Theorem|Lemma|Corollary)\s+([A-Za-z0-9_']+)", re.M)
